@@ -103,6 +103,7 @@ type CaseWriter struct {
 	Stats    map[string]int
 	distinct map[string]bool
 	Samples  []any
+	Extra    string // further Coq commands appended to every shard
 }
 
 func NewCaseWriter(t *testing.T, prop, module string) *CaseWriter {
@@ -146,6 +147,7 @@ func (w *CaseWriter) flush() {
 	b.WriteString("\n].\n")
 	b.WriteString("Definition M := Eval vm_compute in mismatches cases.\nPrint M.\n")
 	b.WriteString("Definition V := Eval vm_compute in checker_failures cases.\nPrint V.\n")
+	b.WriteString(w.Extra)
 	if err := os.WriteFile(filepath.Join(w.dir, name+".v"), []byte(b.String()), 0o644); err != nil {
 		w.t.Fatal(err)
 	}
